@@ -153,7 +153,7 @@ func strokeOutline(sps []oracle.Subpath, sp strokeParams, joinAtClosure bool) []
 	}
 	var out []oracle.Polyline
 	if sp.width > 0 {
-		p := buildPath(sps, dashed && !joinAtClosure)
+		p := buildPath(mergeTinySegments(sps, 1e-4), dashed && !joinAtClosure)
 		if dashed {
 			p = p.Dash(sp.phase, append([]float64(nil), sp.dashes...)...)
 		}
@@ -177,4 +177,32 @@ func hasClosedSubpath(sps []oracle.Subpath) bool {
 		}
 	}
 	return false
+}
+
+// mergeTinySegments removes straight segments shorter than eps (user units) by moving the
+// neighbouring segment's end onto the other end. PostScript's arc operators are emitted with a
+// centre parameterisation rounded to 8 digits: the interpreter must connect the current point to
+// the recomputed arc start and close the subpath with straight segments of some 1e-7 units whose
+// direction is noise; a join computed from such a segment says nothing about the document.
+func mergeTinySegments(sps []oracle.Subpath, eps float64) []oracle.Subpath {
+	out := make([]oracle.Subpath, 0, len(sps))
+	for _, sp := range sps {
+		q := oracle.Subpath{Start: sp.Start, Closed: sp.Closed}
+		cur := sp.Start
+		for _, s := range sp.Segs {
+			if (s.Kind == oracle.CmdLine || s.Kind == oracle.CmdClose) && cur.Dist(s.P1) < eps && cur != s.P1 {
+				if s.Kind == oracle.CmdClose && len(q.Segs) > 0 {
+					q.Segs[len(q.Segs)-1].P1 = s.P1
+					cur = s.P1
+					q.Segs = append(q.Segs, oracle.Seg{Kind: oracle.CmdClose, P0: cur, P1: cur})
+				}
+				continue
+			}
+			s.P0 = cur
+			q.Segs = append(q.Segs, s)
+			cur = s.P1
+		}
+		out = append(out, q)
+	}
+	return out
 }
